@@ -604,6 +604,48 @@ impl Sim {
         Ok(())
     }
 
+    fn stray_vote(&mut self, sel: u8, yes: bool, ctx: &mut CaseCtx) -> Result<(), Fail> {
+        let tx = sel as usize;
+        if tx >= self.txs.len() {
+            self.flags.skipped += 1;
+            return Ok(());
+        }
+        // a shard id the transaction does not involve (an id beyond the cluster if it involves all)
+        let stray = (0..self.parts.len()).find(|s| !self.txs[tx].shards.contains_key(s)).unwrap_or(self.parts.len() + 4);
+        let vote = if yes {
+            PrepareVote::Yes { lock_handle: 9_000_000 + tx as u64, delta: tensor_chain::DeltaVector::zero(4) }
+        } else {
+            PrepareVote::No { reason: "stray".to_string() }
+        };
+        match self.coord.record_vote(self.txs[tx].id, stray, vote) {
+            Ok(phase) => {
+                ctx.label(if yes { "a yes vote naming a non-participant shard was accepted" } else { "a no vote naming a non-participant shard was accepted" });
+                match phase {
+                    Some(TxPhase::Prepared) => {
+                        let missing: Vec<usize> = self.txs[tx].shards.iter().filter(|(_, s)| s.accepted != Some(true)).map(|(k, _)| *k).collect();
+                        if !missing.is_empty() {
+                            ctx.fail(
+                                "prepared-without-all-yes-votes",
+                                format!("tx#{tx}: a vote naming shard {stray}, which is not a participant, made record_vote report Prepared although no yes vote was accepted from participants {missing:?}"),
+                            )?;
+                        }
+                        self.txs[tx].seen_prepared = true;
+                    },
+                    Some(TxPhase::Aborting) => {
+                        // aborting is always allowed before a commit decision
+                        self.observe_abort(tx, "record_vote (stray vote) returned Aborting", ctx)?;
+                        self.txs[tx].abort_expected = Some("vote");
+                    },
+                    _ => {},
+                }
+            },
+            Err(_) => {
+                self.flags.rejected_votes.insert("stray vote rejected");
+            },
+        }
+        Ok(())
+    }
+
     fn apply(&mut self, op: &Op, ctx: &mut CaseCtx) -> Result<Step, Fail> {
         match op {
             Op::Begin(spec) => {
@@ -659,6 +701,10 @@ impl Sim {
             },
             Op::ClientAbort(sel) => {
                 self.client_abort(*sel, ctx)?;
+                Ok(Step::Coordinator)
+            },
+            Op::StrayVote { sel, yes } => {
+                self.stray_vote(*sel, *yes, ctx)?;
                 Ok(Step::Coordinator)
             },
         }
